@@ -28,6 +28,14 @@ PLAN = {
  "C09-m5": ["C09", "C10"], "C09-m6": ["C09"], "C10-m5": ["C10", "C17"], "C10-m6": ["C10", "C16", "C04"], "C14-m5": ["C14", "C02"], "C14-m6": ["C14", "C11"],
  "C15-m5": ["C15", "C05"], "C15-m6": ["C15", "C05"], "C16-m5": ["C16", "C04"], "C16-m6": ["C16", "C04", "C10"], "C17-m5": ["C17"], "C17-m6": ["C17"],
  "C18-m5": ["C18"], "C18-m6": ["C18"],
+ # round 5
+ "C01-m7": ["C01"], "C01-m8": ["C01", "C07"], "C02-m7": ["C02", "C12"], "C02-m8": ["C02", "C06"], "C03-m7": ["C03", "C04"], "C03-m8": ["C03", "C05"],
+ "C04-m7": ["C04"], "C04-m8": ["C04", "C20"], "C05-m7": ["C05"], "C05-m8": ["C05"], "C06-m7": ["C06", "C11"], "C06-m8": ["C06", "C01"],
+ "C07-m7": ["C07", "C19"], "C07-m8": ["C07", "C17"], "C08-m7": ["C08"], "C08-m8": ["C08"], "C09-m7": ["C09"], "C09-m8": ["C09", "C17"],
+ "C10-m7": ["C10", "C04"], "C10-m8": ["C10", "C16"], "C11-m7": ["C11"], "C11-m8": ["C11", "C14"], "C12-m7": ["C12"], "C12-m8": ["C12", "C02"],
+ "C13-m7": ["C13"], "C13-m8": ["C13"], "C14-m7": ["C14"], "C14-m8": ["C14"], "C15-m7": ["C15"], "C15-m8": ["C15", "C04"],
+ "C16-m7": ["C16", "C10"], "C16-m8": ["C16", "C04"], "C17-m7": ["C17"], "C17-m8": ["C17", "C09"], "C18-m7": ["C18"], "C18-m8": ["C18", "C20"],
+ "C19-m7": ["C19", "C08"], "C19-m8": ["C19", "C07"], "C20-m7": ["C20"], "C20-m8": ["C20"],
 }
 only = sys.argv[1:]
 path = os.path.join(HERE, "seeded", "detection.json")
